@@ -10,23 +10,23 @@ from ..facts import AttrWrites, FuncFacts
 from ..fold import Folder, Scope, Unfoldable, dotted, src
 from ..loader import AnalysisError, Func, Repo
 
-_CTX = {}
-
-
 def ctx(chk):
-    """(repo, folder) shared per run."""
-    key = id(chk.repo)
-    if key not in _CTX:
-        _CTX[key] = (chk.repo, Folder(chk.repo))
-    return _CTX[key]
+    """(repo, folder) shared per run (stored on the repo object: no global state survives a run)."""
+    repo = chk.repo
+    if not hasattr(repo, "_verif_folder"):
+        repo._verif_folder = Folder(repo)
+        repo._verif_ff = {}
+    return repo, repo._verif_folder
 
 
 def ff_for(chk, func: Func, rule: str) -> FuncFacts:
     repo, folder = ctx(chk)
-    cache = _CTX.setdefault(("ff", id(repo)), {})
+    cache = repo._verif_ff
     if func.key not in cache:
         cache[func.key] = FuncFacts(repo, folder, func, rule)
-        chk.saw(func)
+    chk.saw(func)
+    if func.key not in getattr(chk, "_cfg_counted", set()):
+        chk._cfg_counted = getattr(chk, "_cfg_counted", set()) | {func.key}
         chk.saw_cfg(cache[func.key].cfg)
     return cache[func.key]
 
